@@ -140,6 +140,9 @@ func (c StoreCfg) Options() []store.Option {
 	if c.SyncMs != 0 {
 		opts = append(opts, store.SyncInterval(time.Duration(c.SyncMs)*time.Millisecond))
 	}
+	if c.SyncOnFlush {
+		opts = append(opts, store.SyncOnFlush(true))
+	}
 	return opts
 }
 
